@@ -50,6 +50,27 @@ func zzBuildC09() [][]zzPat {
 		{{"c", "b", "USD/2"}, {"b", "a", "USD/2"}, {"a", "b", "USD/2"}},
 	}
 	out = append(out, three...)
+	// asset names where one is the other followed by digits (amount digits could be
+	// mistaken for asset digits by a careless encoding)
+	confusable := [][]zzPat{
+		{{"world", "a", "EUR2"}, {"world", "a", "EUR"}},
+		{{"world", "a", "EUR"}, {"world", "b", "EUR2"}},
+		{{"a", "b", "USD/2"}, {"a", "b", "USD/25"}},
+		{{"world", "a", "COIN/1"}, {"world", "a", "COIN/18"}, {"a", "b", "COIN/1"}},
+	}
+	out = append(out, confusable...)
+	return out
+}
+
+func zzAssetsOf(pat []zzPat) []string {
+	var out []string
+	seen := map[string]bool{}
+	for _, p := range pat {
+		if !seen[p.Asset] {
+			seen[p.Asset] = true
+			out = append(out, p.Asset)
+		}
+	}
 	return out
 }
 
@@ -63,7 +84,7 @@ func ZZ_C09(shape int) {
 	st := zzNewStore()
 	run := map[string]*big.Int{} // running balances keyed account|asset
 	for _, a := range []string{"a", "b", "c"} {
-		for _, as := range []string{"USD/2", "EUR"} {
+		for _, as := range zzAssetsOf(pat) {
 			used := false
 			for _, p := range pat {
 				if p.Asset == as && (p.Src == a || p.Dst == a) {
